@@ -16,7 +16,8 @@ import subprocess
 import sys
 import time
 
-SEED = "/tmp/seed"
+SEED = os.environ.get("SEED_DIR", "/tmp/seed")
+ROUND = int(os.environ.get("SEED_ROUND", "1"))
 OUT = "/verif/seeded"
 ENV = dict(os.environ, CARGO_NET_OFFLINE="true", CARGO_TERM_COLOR="never")
 
@@ -54,7 +55,7 @@ def confirm_one(wt):
         patch = os.path.join(wt, "out", "patch%s.diff" % k)
         if not os.path.exists(patch):
             continue
-        r = {"id": "%s-%s" % (pid, k), "property": pid}
+        r = {"id": "%s-%s" % (pid, chr(ord(k) + 2 * (ROUND - 1))), "property": pid}
         sh("git checkout -- . && git clean -fdq -- src examples", wt)
         rc, out = sh(["git", "apply", "--check", patch], wt)
         if rc != 0:
@@ -91,6 +92,7 @@ def confirm_one(wt):
                 "breaks_property": pid,
                 "origin": "independent sub-agent given only the property text and a scratch worktree of /repo (commit %s)" % subprocess.run(["git", "-C", "/repo", "rev-parse", "--short", "HEAD"], stdout=subprocess.PIPE, text=True).stdout.strip(),
                 "needs_to_manifest": "see notes.md",
+                "round": ROUND,
                 "confirmed": {
                     "where": "scratch worktree %s" % wt,
                     "commands": ["git apply patch.diff", "cargo build --offline", "cargo build --offline --features verif_hooks", "cargo test --offline  (531 passed; 0 failed)", "cargo run --offline --example demo  (demo copied to examples/; demo.sh run directly when present)"],
